@@ -19,10 +19,10 @@
                                                                  -> summary_of_filled (shape of the generated
                                                                     list_summary; the statistics themselves are
                                                                     the model's definitions, tied by correspondence)
-   Not a theorem: that the a_globals entry of `measure` is the aggregate over exactly the lists with
-   test data (index bookkeeping of the loop) -- covered by the correspondence runs only. *)
+   * the same at the level of RunAnalysis.measure (the aggregate is taken over exactly the outputs
+     that have a test list, whatever metrics precede or follow)   -> run_level_is_pooled *)
 From Coq Require Import ZArith QArith Qabs List Bool.
-From LK Require Import Lib.QLib Gen.C07_agg Model.C07_metrics Proofs.C07_proofs Proofs.C07_main.
+From LK Require Import Lib.QLib Gen.C07_agg Model.C07_metrics Proofs.C07_proofs Proofs.C07_main Proofs.C07_global.
 Import ListNotations.
 Open Scope Q_scope.
 
@@ -59,6 +59,20 @@ Theorem global_is_pooled : forall lists : list (ilist * ilist),
   res_eq (mae_global_aggregate (map (fun j => mae_compute_list_data (aligned_of j)) js)) (mae_def pooled).
 Proof. exact global_is_pooled_l. Qed.
 Print Assumptions global_is_pooled.
+
+Theorem run_level_is_pooled : forall ofs tfs pre ms mt d post outputs test,
+  (forall a, measure ofs tfs (pre ++ rmse_metric ms mt d :: post) outputs test = OK a ->
+     exists ts v,
+       sequence (map (fun e => lookup_projected ofs tfs (fst e) test) outputs) = Some ts /\
+       nth_error (a_globals a) (length (filter in_globals pre)) = Some v /\
+       res_eq v (rmse_def (pooled_pairs outputs ts))) /\
+  (forall a, measure ofs tfs (pre ++ mae_metric ms mt d :: post) outputs test = OK a ->
+     exists ts v,
+       sequence (map (fun e => lookup_projected ofs tfs (fst e) test) outputs) = Some ts /\
+       nth_error (a_globals a) (length (filter in_globals pre)) = Some v /\
+       res_eq v (mae_def (pooled_pairs outputs ts))).
+Proof. intros. split; intro a; [exact (run_level_rmse _ _ _ _ _ _ _ _ _ a)|exact (run_level_mae _ _ _ _ _ _ _ _ _ a)]. Qed.
+Print Assumptions run_level_is_pooled.
 
 Theorem list_value_is_metric : forall ofs tfs ms outputs test a,
   measure ofs tfs ms outputs test = OK a ->
